@@ -568,6 +568,9 @@ pub enum Fault9 {
     InnerReadErr { at: u16, kind: u8 },
     /// writer: the sink fails at write call j
     SinkErr { at: u16, kind: u8 },
+    /// writer history on a healthy sink: flush() before the first write, between the writes selected by the mask
+    /// (twice in a row where `twice`), after the last write; empty writes in between; then finish()
+    WriterOps { flush_first: bool, flush_mask: u32, twice: bool, flush_last: bool, empty_writes: bool },
 }
 
 #[derive(Clone, Debug, Serialize, Deserialize)]
@@ -657,7 +660,7 @@ impl Property for C09 {
     const ID: &'static str = "C09";
 
     fn families(_tier: Tier) -> u32 {
-        8
+        9
     }
 
     fn strategy(tier: Tier, family: u32) -> BoxedStrategy<Case9> {
@@ -667,7 +670,10 @@ impl Property for C09 {
             3 => (0u16..1000).prop_map(|at| Fault9::Truncated { at }).boxed(),
             4 => prop_oneof![Just(Fault9::ZeroBytes), Just(Fault9::MissingTerminator)].boxed(),
             5 | 6 => (0u16..1000, 0u8..4).prop_map(|(at, kind)| Fault9::InnerReadErr { at, kind }).boxed(),
-            _ => (0u16..1000, 0u8..4).prop_map(|(at, kind)| Fault9::SinkErr { at, kind }).boxed(),
+            7 => (0u16..1000, 0u8..4).prop_map(|(at, kind)| Fault9::SinkErr { at, kind }).boxed(),
+            _ => (any::<bool>(), prop_oneof![Just(0u32), any::<u32>(), Just(u32::MAX)], any::<bool>(), any::<bool>(), any::<bool>())
+                .prop_map(|(flush_first, flush_mask, twice, flush_last, empty_writes)| Fault9::WriterOps { flush_first, flush_mask, twice, flush_last, empty_writes })
+                .boxed(),
         };
         let iters = tier.pick(30u16, 300);
         (mt_data(6), small_opts(), any::<bool>(), 1u8..5, fault, prop_oneof![1 => Just(0u32), 10 => 1u32..=4], plan_strategy(), read_sizes_strategy(), sched_strategy())
@@ -695,11 +701,11 @@ impl Property for C09 {
     }
 
     fn rule() -> &'static str {
-        "scenario = (data, options, LZMA2 or LZIP, unit size, workers 1-4, fault: none / byte damage inside the stream / truncation / zero-length input / missing LZMA2 terminator / source error at read call j / sink error at write call j) x `iters` shuttle schedules (random, PCT 1-4, round robin). Termination is decided by the scheduler: a dead-lock (no runnable task while the caller has not returned) or more than 3M scheduling points is a violation. Result oracle: Err, or Ok with exactly the original data; valid => Ok; reached source/sink error => Err of the injected kind; zero bytes / missing terminator / truncation => Err; damage => Err unless the exact data comes back. evaluations counts schedules. Non-trivial = a faulty scenario in which a worker took its error path or the injected fault was reached. Distinct = hash of the case recipe."
+        "scenario = (data, options, LZMA2 or LZIP, unit size, workers 1-4, fault: none / byte damage inside the stream / truncation / zero-length input / missing LZMA2 terminator / source error at read call j / sink error at write call j / writer history on a healthy sink: flush before the first write, between writes, twice in a row, after the last write, empty writes, then finish) x `iters` shuttle schedules (random, PCT 1-4, round robin). Termination is decided by the scheduler: a dead-lock (no runnable task while the caller has not returned) or more than 3M scheduling points is a violation. Result oracle: Err, or Ok with exactly the original data; valid => Ok; reached source/sink error => Err of the injected kind; zero bytes / missing terminator / truncation => Err; damage => Err unless the exact data comes back. evaluations counts schedules. Non-trivial = a faulty scenario in which a worker took its error path or the injected fault was reached. Distinct = hash of the case recipe."
     }
 
     fn floors(_tier: Tier) -> Vec<(&'static str, f64)> {
-        vec![("faulty", 60.0), ("worker_error_path", 15.0), ("fault_reached", 15.0), ("lzip", 25.0), ("lzma2", 25.0)]
+        vec![("faulty", 60.0), ("worker_error_path", 15.0), ("fault_reached", 15.0), ("lzip", 25.0), ("lzma2", 25.0), ("writer_history", 5.0), ("flush_before_first_write", 2.0)]
     }
 
     fn assumptions() -> Vec<&'static str> {
@@ -718,8 +724,74 @@ impl Property for C09 {
         let cap = data.len() + (1 << 20);
         let kind_of = |k: u8| KINDS[k as usize % 4];
         let _ = take_counters();
-        obs.class_if(!matches!(case.fault, Fault9::Valid), "faulty");
+        obs.class_if(!matches!(case.fault, Fault9::Valid | Fault9::WriterOps { .. }), "faulty");
         let reached = Arc::new(AtomicUsize::new(0));
+
+        if let Fault9::WriterOps { flush_first, flush_mask, twice, flush_last, empty_writes } = case.fault.clone() {
+            // every writer call returns on a healthy sink, whatever the order of write / flush / finish, and the
+            // result decodes (single-threaded reader) to the written bytes
+            obs.class("writer_history");
+            obs.class_if(flush_first, "flush_before_first_write");
+            let opts = case.opts.clone();
+            let plan = case.plan.clone();
+            let workers = case.workers;
+            let d2 = data.clone();
+            let info = run_schedules(&case.sched, case.iters as usize, 3_000_000, move || {
+                fn drive<W: Write>(w: &mut W, pieces: &[&[u8]], flush_first: bool, flush_mask: u32, twice: bool, flush_last: bool, empty_writes: bool) -> io::Result<()> {
+                    if flush_first {
+                        w.flush()?;
+                        if twice {
+                            w.flush()?;
+                        }
+                    }
+                    for (i, p) in pieces.iter().enumerate() {
+                        if empty_writes && i % 3 == 1 {
+                            let n = w.write(&[])?;
+                            if n != 0 {
+                                return Err(io::Error::other("empty write returned non-zero"));
+                            }
+                        }
+                        w.write_all(p)?;
+                        if flush_mask >> (i % 32) & 1 == 1 {
+                            w.flush()?;
+                            if twice {
+                                w.flush()?;
+                            }
+                        }
+                    }
+                    if flush_last {
+                        w.flush()?;
+                    }
+                    Ok(())
+                }
+                let pieces = plan.pieces(&d2);
+                let r: io::Result<Vec<u8>> = match fmt {
+                    Fmt::Lzma2 => LZMA2WriterMT::new(Vec::new(), l2_options(&opts, unit, None), workers).and_then(|mut w| {
+                        drive(&mut w, &pieces, flush_first, flush_mask, twice, flush_last, empty_writes)?;
+                        w.finish()
+                    }),
+                    Fmt::Lzip => {
+                        let cfg = LzipCfg { opts: opts.clone(), member: Some(unit) };
+                        LZIPWriterMT::new(Vec::new(), lzip_options(&cfg), workers).and_then(|mut w| {
+                            drive(&mut w, &pieces, flush_first, flush_mask, twice, flush_last, empty_writes)?;
+                            w.finish()
+                        })
+                    }
+                };
+                match r {
+                    Err(e) => vfail("writer-history-error", format!("write / flush / finish on a healthy sink failed: {e}")),
+                    Ok(s) => match st_read(fmt, &s, dict, None, cap) {
+                        Ok(o) if o == *d2 => {}
+                        Ok(o) => vfail("writer-history-wrong-data", first_diff(&o, &d2)),
+                        Err(e) => vfail("writer-history-undecodable", format!("{e}")),
+                    },
+                }
+            })?;
+            obs.evals = info.iterations as u64;
+            let _ = take_counters();
+            obs.nontrivial = flush_first || flush_mask != 0 || flush_last;
+            return Ok(());
+        }
 
         if let Fault9::SinkErr { at, kind } = &case.fault {
             // writer scenario
@@ -841,7 +913,7 @@ impl Property for C09 {
                 // absolute range that every non-trivial stream reaches)
                 err_at = Some(((*at as usize) % 6, kind_of(*kind)));
             }
-            Fault9::SinkErr { .. } => unreachable!(),
+            Fault9::SinkErr { .. } | Fault9::WriterOps { .. } => unreachable!(),
         }
         let valid = matches!(case.fault, Fault9::Valid);
         // Raw LZMA2 has no integrity check: damage inside a payload legitimately decodes to other
